@@ -119,11 +119,11 @@ Qed.
 (* all values inside the original prefix are unchanged by any extension whose last entry is not
    below the last entry of the prefix *)
 Theorem extrapolate_unchanged_inside : forall d tl delta, wf_dmin d ->
-  lastN d <= lastN (d ++ tl) -> delta < lastN d ->
+  lastN d <= lastN (d ++ tl) -> delta <= lastN d ->
   curve_na (d ++ tl) delta = curve_na d delta.
 Proof.
   intros d tl delta [Hne _] Hl Hd. destruct (N.eq_dec delta 0) as [->|H0]; [reflexivity|].
-  rewrite !curve_na_small by lia. apply curve_tail_app; [exact Hne | lia].
+  rewrite !curve_na_le_last by lia. apply curve_tail_app; [exact Hne | lia].
 Qed.
 
 (* without the hypothesis on the last entry the statement is false (a shorter "period") *)
@@ -136,7 +136,7 @@ Proof.
   - vm_compute. discriminate.
 Qed.
 
-Lemma iter_unchanged_inside : forall k d delta, wf_dmin d -> delta < lastN d ->
+Lemma iter_unchanged_inside : forall k d delta, wf_dmin d -> delta <= lastN d ->
   curve_na (Nat.iter k push_next d) delta = curve_na d delta.
 Proof.
   intros k d delta Hwf Hd. pose proof (iter_push_last_mono k d Hwf) as Hl.
@@ -144,14 +144,14 @@ Proof.
   apply extrapolate_unchanged_inside; assumption.
 Qed.
 
-Theorem extrapolate_unchanged_inside_horizon : forall d h delta, wf_dmin d -> delta < lastN d ->
+Theorem extrapolate_unchanged_inside_horizon : forall d h delta, wf_dmin d -> delta <= lastN d ->
   curve_na (extrapolate d h) delta = curve_na d delta.
 Proof.
   intros d h delta Hwf Hd. destruct (extrapolate_prefix d h) as [k ->].
   apply iter_unchanged_inside; assumption.
 Qed.
 
-Theorem extrapolate_steps_unchanged_inside : forall d n delta, wf_dmin d -> delta < lastN d ->
+Theorem extrapolate_steps_unchanged_inside : forall d n delta, wf_dmin d -> delta <= lastN d ->
   curve_na (extrapolate_steps d n) delta = curve_na d delta.
 Proof.
   intros d n delta Hwf Hd. unfold extrapolate_steps. destruct (can_extrapolate d); [|reflexivity].
@@ -212,31 +212,25 @@ Lemma tighten_core : forall k d delta a, wf_dmin d -> delta <> 0 ->
 Proof.
   intros k d delta a Hwf H0 Ha Hlt. pose proof Hwf as [Hne [Hnd Hlast]].
   pose proof (wf_len d Hwf) as Hn.
-  rewrite curve_na_eq in Ha by exact H0.
-  pose proof (N.div_mod delta (lastN d) ltac:(lia)) as Hdm.
-  pose proof (N.mod_lt delta (lastN d) ltac:(lia)) as Hr.
+  rewrite curve_na_eq in Ha by assumption.
+  pose proof (N.div_mod (delta - 1) (lastN d) ltac:(lia)) as Hdm.
+  pose proof (N.mod_lt (delta - 1) (lastN d) ltac:(lia)) as Hr.
   set (L := lastN d) in *.
-  remember (delta mod L) as r eqn:Er. remember (delta / L) as qN eqn:Eq. clear Er Eq.
+  remember ((delta - 1) mod L) as r eqn:Er. remember ((delta - 1) / L) as qN eqn:Eq. clear Er Eq.
   rewrite <- (Nnat.N2Nat.id qN) in Ha, Hdm. set (q := N.to_nat qN) in *. clearbody q. clear qN.
   unfold lenN in Ha. rewrite <- Nnat.Nat2N.inj_mul in Ha.
-  destruct (curve_tail_spec d r Hne ltac:(unfold L in *; lia)) as [[Hr0 HT]|[m [HT [Hm Hrm]]]].
-  - rewrite HT in Ha. subst r.
-    assert (Hq : (1 <= q)%nat) by (destruct q; [cbn in Hdm; lia | lia]).
-    assert (Ea : a = (q * length d)%nat) by lia. subst a.
-    split; [nia|].
-    replace (q * length d - 1)%nat with ((q - 1) * length d + (length d - 1))%nat by nia.
-    pose proof (ext_block k d Hwf (q - 1) (length d - 1) ltac:(lia) ltac:(nia)) as Hb.
-    rewrite <- last_nth in Hb. fold L in Hb.
-    replace (N.of_nat q) with (N.of_nat (q - 1) + 1) in Hdm by lia. lia.
-  - rewrite HT in Ha.
-    assert (Ea : a = (q * length d + m + 1)%nat) by lia. subst a.
-    split; [lia|].
-    replace (q * length d + m + 1 - 1)%nat with (q * length d + m)%nat by lia.
-    pose proof (ext_block k d Hwf q m Hm ltac:(lia)) as Hb. fold L in Hb. lia.
+  destruct (curve_tail_spec d (r + 1) Hne ltac:(unfold L in *; lia)) as [[Hr0 HT]|[m [HT [Hm Hrm]]]]; [lia|].
+  rewrite HT in Ha.
+  assert (Ea : a = (q * length d + m + 1)%nat) by lia. subst a.
+  split; [lia|].
+  replace (q * length d + m + 1 - 1)%nat with (q * length d + m)%nat by lia.
+  pose proof (ext_block k d Hwf q m Hm ltac:(lia)) as Hb. fold L in Hb. lia.
 Qed.
 
+(* up to and INCLUDING the last entry of the extension (with the repair of number_arrivals at exact multiples of
+   the last entry; before, the last entry of a plateau-ended extension was excluded) *)
 Lemma iter_tightens_below : forall k d delta, wf_dmin d ->
-  delta < lastN (Nat.iter k push_next d) ->
+  delta <= lastN (Nat.iter k push_next d) ->
   curve_na (Nat.iter k push_next d) delta <= curve_na d delta.
 Proof.
   intros k d delta Hwf Hd.
@@ -244,7 +238,7 @@ Proof.
   set (e := Nat.iter k push_next d) in *.
   assert (Hwe : wf_dmin e) by (apply iter_push_wf; exact Hwf). pose proof Hwe as [Hnee _].
   assert (Hle : length e = (length d + k)%nat) by apply iter_push_length.
-  rewrite (curve_na_small e) by assumption.
+  rewrite (curve_na_le_last e) by assumption.
   remember (curve_na d delta) as A eqn:EA. symmetry in EA.
   rewrite <- (Nnat.N2Nat.id A) in EA |- *. set (a := N.to_nat A) in *. clearbody a. clear A.
   destruct (le_lt_dec (length e) a) as [Hge|Hlt].
@@ -253,46 +247,51 @@ Proof.
     pose proof (curve_tail_ub e delta (a - 1) ltac:(lia) Hx). lia.
 Qed.
 
-Lemma curve_na_at_last : forall e, wf_dmin e -> curve_na e (lastN e) = lenN e.
+(* at its last entry a curve answers by lookup: the number of entries, unless the vector ends in a plateau *)
+Lemma curve_na_at_last : forall e, wf_dmin e -> curve_na e (lastN e) = lookup_arrivals e (lastN e).
 Proof.
-  intros e [_ [_ Hl]]. rewrite curve_na_eq by lia.
-  rewrite N.div_same, N.mod_same by lia. unfold curve_tail.
-  destruct (N.ltb_spec (hdN e) 0); [lia|]. rewrite N.ltb_irrefl. unfold b2n. lia.
+  intros e [Hne [_ Hl]]. rewrite curve_na_le_last by lia. unfold curve_tail.
+  destruct (N.ltb_spec (hdN e) (lastN e)) as [_|Hhd]; [reflexivity|].
+  unfold b2n. destruct (N.ltb_spec 0 (lastN e)) as [_|E]; [|lia].
+  destruct e as [|y e]; [congruence|]. unfold hdN in Hhd. cbn [hd] in Hhd. cbn [lookup_arrivals].
+  destruct (N.leb_spec (lastN (y :: e)) y); [reflexivity | lia].
+Qed.
+
+Lemma curve_na_at_last_le : forall e, wf_dmin e -> curve_na e (lastN e) <= lenN e.
+Proof.
+  intros e Hwf. rewrite curve_na_at_last by exact Hwf. destruct Hwf as [Hne _].
+  apply lookup_le_len; [exact Hne | lia].
 Qed.
 
 Lemma iter_tightens_at : forall k d, wf_dmin d ->
-  lastN (Nat.iter k push_next d) < lastN (Nat.iter (S k) push_next d) ->
   curve_na (Nat.iter (S k) push_next d) (lastN (Nat.iter (S k) push_next d))
     <= curve_na d (lastN (Nat.iter (S k) push_next d)).
-Proof.
-  intros k d Hwf Hstep. pose proof (wf_len d Hwf) as Hn.
-  set (e := Nat.iter (S k) push_next d) in *.
-  assert (Hwe : wf_dmin e) by (apply iter_push_wf; exact Hwf). pose proof Hwe as [_ [Hnde Hle0]].
-  assert (Hle : length e = (length d + S k)%nat) by apply iter_push_length.
-  rewrite curve_na_at_last by exact Hwe. unfold lenN.
-  remember (curve_na d (lastN e)) as A eqn:EA. symmetry in EA.
-  rewrite <- (Nnat.N2Nat.id A) in EA |- *. set (a := N.to_nat A) in *. clearbody a. clear A.
-  destruct (le_lt_dec (length e) a) as [Hge|Hlt]; [lia|]. exfalso.
-  destruct (tighten_core (S k) d (lastN e) a Hwf ltac:(lia) EA ltac:(lia)) as [Ha1 Hx]. fold e in Hx.
-  pose proof (nondecreasing_nth e (a - 1) (length e - 2) Hnde ltac:(lia) ltac:(lia)) as Hm.
-  assert (Hp : nthN e (length e - 2) = lastN (Nat.iter k push_next d)).
-  { rewrite last_nth, (iter_push_length k d), Hle. unfold e.
-    rewrite (iter_nth_stable (S k) k d) by lia. f_equal. lia. }
-  lia.
-Qed.
+Proof. intros k d Hwf. apply iter_tightens_below; [exact Hwf | lia]. Qed.
 
 (* [realisable] is not needed: the theorem holds for every well-formed prefix *)
 Theorem extrapolate_only_tightens_wf : forall d h delta, wf_dmin d ->
   delta <= lastN (extrapolate d h) -> curve_na (extrapolate d h) delta <= curve_na d delta.
 Proof.
-  intros d h delta Hwf Hd. destruct (can_extrapolate d) eqn:Hc.
-  2:{ unfold extrapolate. rewrite Hc. lia. }
-  pose proof (extrapolate_reaches d h Hwf (can_extrapolate_len d Hc)) as Hreach.
-  destruct (extrapolate_char d h Hc) as [k [E [Hmin _]]]. rewrite E in *.
-  destruct (N.eq_dec delta (lastN (Nat.iter k push_next d))) as [->|Hne].
-  - destruct k as [|k]; [change (Nat.iter 0 push_next d) with d; lia|].
-    apply iter_tightens_at; [exact Hwf|]. specialize (Hmin k ltac:(lia)). lia.
-  - apply iter_tightens_below; [exact Hwf | lia].
+  intros d h delta Hwf Hd. destruct (extrapolate_prefix d h) as [k E]. rewrite E in *.
+  apply iter_tightens_below; assumption.
+Qed.
+
+(* the same for extrapolate_steps: its result may end in a plateau (e.g. [0; 2] extended to 13 entries); this was
+   the "last entry of a plateau-ended extrapolated vector" part of the finding C13-beyond-horizon *)
+Theorem extrapolate_steps_only_tightens_wf : forall d n delta, wf_dmin d ->
+  delta <= lastN (extrapolate_steps d n) -> curve_na (extrapolate_steps d n) delta <= curve_na d delta.
+Proof.
+  intros d n delta Hwf Hd. unfold extrapolate_steps in *. destruct (can_extrapolate d); [|lia].
+  apply iter_tightens_below; assumption.
+Qed.
+
+(* regression: the former witness of the plateau-ended part of C13-beyond-horizon (13 > 12 before the repair) *)
+Theorem plateau_ended_horizon_repaired :
+  lastN (extrapolate_steps [0; 2] 13) = 12 /\ plateau_end (extrapolate_steps [0; 2] 13) /\
+  curve_na (extrapolate_steps [0; 2] 13) 12 = 12 /\ curve_na [0; 2] 12 = 12.
+Proof.
+  split; [vm_compute; reflexivity|]. split; [|split; vm_compute; reflexivity].
+  split; [vm_compute; lia | vm_compute; reflexivity].
 Qed.
 
 Theorem extrapolate_only_tightens : forall d h delta, realisable d ->
@@ -335,7 +334,7 @@ Qed.
 (* 4. ExtrapolatingCurve answers like an eagerly extrapolated Curve                            *)
 (* ------------------------------------------------------------------------------------------ *)
 Lemma iter_agree_le : forall d a b delta, wf_dmin d -> (a <= b)%nat ->
-  delta < lastN (Nat.iter a push_next d) ->
+  delta <= lastN (Nat.iter a push_next d) ->
   curve_na (Nat.iter b push_next d) delta = curve_na (Nat.iter a push_next d) delta.
 Proof.
   intros d a b delta Hwf Hab Hd. replace b with ((b - a) + a)%nat by lia. rewrite iter_add.
@@ -343,7 +342,7 @@ Proof.
 Qed.
 
 Lemma iter_agree : forall d a b delta, wf_dmin d ->
-  delta < lastN (Nat.iter a push_next d) -> delta < lastN (Nat.iter b push_next d) ->
+  delta <= lastN (Nat.iter a push_next d) -> delta <= lastN (Nat.iter b push_next d) ->
   curve_na (Nat.iter a push_next d) delta = curve_na (Nat.iter b push_next d) delta.
 Proof.
   intros d a b delta Hwf Ha Hb. destruct (le_lt_dec a b) as [Hle|Hlt].
@@ -351,7 +350,7 @@ Proof.
   - apply iter_agree_le; [exact Hwf | lia | exact Hb].
 Qed.
 
-Theorem extrap_na_is_eager : forall d delta H, wf_dmin d -> (2 <= length d)%nat -> delta + 1 <= H ->
+Theorem extrap_na_is_eager : forall d delta H, wf_dmin d -> (2 <= length d)%nat -> delta <= H ->
   extrap_na d delta = curve_na (extrapolate d H) delta.
 Proof.
   intros d delta H Hwf Hlen HH. unfold extrap_na.
@@ -528,17 +527,16 @@ Qed.
 Lemma curve_na_single : forall T (m : nat) delta, 0 < T ->
   T * N.of_nat m < delta -> delta <= T * (N.of_nat m + 1) -> curve_na [T] delta = N.of_nat m + 1.
 Proof.
-  intros T m delta HT Hlo Hhi. rewrite curve_na_eq by lia.
+  intros T m delta HT Hlo Hhi. rewrite curve_na_eq by (try change (lastN [T]) with T; lia).
   change (lastN [T]) with T. change (lenN [T]) with 1. unfold curve_tail. change (hdN [T]) with T.
-  pose proof (N.div_mod delta T ltac:(lia)) as Hdm. pose proof (N.mod_lt delta T ltac:(lia)) as Hr.
-  destruct (N.ltb_spec T (delta mod T)); [lia|]. unfold b2n.
-  set (q := delta / T) in *. set (r := delta mod T) in *.
+  pose proof (N.div_mod (delta - 1) T ltac:(lia)) as Hdm. pose proof (N.mod_lt (delta - 1) T ltac:(lia)) as Hr.
+  set (q := (delta - 1) / T) in *. set (r := (delta - 1) mod T) in *. clearbody q r.
+  destruct (N.ltb_spec T (r + 1)); [lia|]. unfold b2n.
+  destruct (N.ltb_spec 0 (r + 1)) as [_|E]; [|lia].
   destruct (N.lt_trichotomy q (N.of_nat m)) as [Hq|[Hq|Hq]].
   - exfalso. assert (T * (q + 1) <= T * N.of_nat m) by (apply N.mul_le_mono_l; lia). lia.
-  - destruct (N.ltb_spec 0 r); [lia|]. exfalso. lia.
-  - destruct (N.lt_trichotomy q (N.of_nat m + 1)) as [Hq'|[Hq'|Hq']]; [lia| |].
-    + destruct (N.ltb_spec 0 r); [exfalso; lia | lia].
-    + exfalso. assert (T * (N.of_nat m + 2) <= T * q) by (apply N.mul_le_mono_l; lia). lia.
+  - lia.
+  - exfalso. assert (T * (N.of_nat m + 1) <= T * q) by (apply N.mul_le_mono_l; lia). lia.
 Qed.
 
 Lemma ap_curve_na : forall T k delta, 0 < T -> delta < lastN (Nat.iter k push_next [T]) ->
@@ -744,6 +742,8 @@ Print Assumptions tightening_fails_beyond_horizon_refuted.
 Print Assumptions extrapolated_curve_bounds_prefix_sequences.
 Print Assumptions extrapolating_curve_bounds_prefix_sequences.
 Print Assumptions extrap_na_is_eager.
+Print Assumptions extrapolate_steps_only_tightens_wf.
+Print Assumptions plateau_ended_horizon_repaired.
 Print Assumptions cache_na_invisible.
 Print Assumptions cache_steps_invisible.
 Print Assumptions history_invisible_from.
